@@ -67,7 +67,7 @@ def scenarios(tier):
     # cid, and a late arrival overtaking a notified waiter
     t3 = {"t3B": ("tag", "p3", "B"), "t3A": ("tag", "p3", "A")}
     mq = dict(MENU, **t3)
-    for tri, st in [(("t1A", "t2A", "t3B"), "Aunref"), (("xA", "t1A", "t2A"), "Aunref")]:
+    for tri, st in [(("t1A", "t2A", "t3B"), "Aunref"), (("xA", "t1A", "t2A"), "Aunref"), (("t1A", "t1B", "t3A"), "Aunref")]:
         out.append({"name": "%s||%s||%s from %s (pre-emption bound 2)" % (tri + (st,)), "init": st, "bound": 2,
                     "threads": {"T%d" % (i + 1): [mq[x]] for i, x in enumerate(tri)}, "pids": ("p1", "p2", "p3")})
     if tier == "thorough":
